@@ -730,6 +730,10 @@ class Summarizer:
         return self.truthy(v)
 
     def truthy(self, v):
+        if hasattr(self.h, "truthy_first"):
+            f = self.h.truthy_first(self, v)
+            if f is not None:
+                return f
         if isinstance(v, BoolV):
             return v.f
         if isinstance(v, Sym) and isinstance(v.key, tuple) and v.key and v.key[0] == "ite":
